@@ -1,3 +1,75 @@
-(* placeholder, replaced by the real theorems *)
-Theorem placeholder_C10 : True. Proof. exact I. Qed.
-Print Assumptions placeholder_C10.
+(* C10 — @join passages advance one section per join choice and merge back correctly.
+   Property theorems only (proofs: Proofs/EngineChoice.v, Proofs/EngineJump.v).  For every story, every
+   author-code oracle and every state. *)
+From Coq Require Import String Ascii List Bool ZArith Arith.
+From Bardic Require Import PyStr Value Compiled Engine EngineBase EngineNav EngineParams EngineSem EngineJump
+     EngineUndo EngineChoice.
+Import ListNotations.
+
+(* only the current section's choices are offered: every choice render_passage offers is a candidate of the
+   passage whose section number is the passage's current @join progress (block choices count as section 0) *)
+Theorem join_one_section_at_a_time : forall orc ctxkeys st pid s s' o,
+  render_passage orc ctxkeys st pid s = (s', Ok o) ->
+  exists p cds sec, get_passage st pid = Some p /\
+    Forall (fun rc => exists dt fd, List.In (rc_choice rc, dt, fd) (passage_cands p cds) /\
+                                    dir_section (rc_choice rc) fd = sec) (o_choices o) /\
+    (exists s1, sec = match lookup pid (joinidx (nc s1)) with Some n => n | None => 0 end /\
+                joinidx (nc s1) = joinidx (nc s)).
+Proof. exact render_passage_section. Qed.
+Print Assumptions join_one_section_at_a_time.
+
+(* taking a '-> @join' choice stays in the passage, shows that choice's own block (rendered exactly once, so its
+   statements are applied once) followed by the text between the current marker and the next one, offers the
+   next section's choices, and advances the progress by exactly one; hook text, if any, comes last *)
+Theorem join_choice_advances : forall orc ctxkeys st c s s' o,
+  execute_join_choice orc ctxkeys st c s = (s', Ok o) ->
+  let pid := match cur (nc s) with Some p => p | None => ""%string end in
+  let idx := match lookup pid (joinidx (nc s)) with Some n => n | None => 0 end in
+  lookup pid (joinidx (nc s')) = Some (S idx) /\ cur (nc s') = cur (nc s) /\
+  exists btxt bds s1 post s2 h,
+    (match ch_block (rc_choice c) with
+     | [] => btxt = ""%string /\ bds = [] /\ s1 = s
+     | blk => exists j, render_content orc ctxkeys blk s = (s1, Ok (btxt, j, bds))
+     end) /\
+    render_from_join_marker orc ctxkeys st pid idx s1 = (s2, Ok post) /\
+    o_choices o = o_choices post /\ o_pid o = pid /\
+    o_content o = o_content (with_hook_output
+      (mkOut (if String.eqb (o_content post) "" then btxt
+              else if negb (String.eqb btxt "") && negb (ends_with_newline btxt)
+                   then (btxt ++ String "010"%char (o_content post))%string
+                   else (btxt ++ o_content post)%string) [] "" [] [] None) h).
+Proof. exact execute_join_choice_advances. Qed.
+Print Assumptions join_choice_advances.
+
+(* an ordinary choice leaves the passage: it is a navigation to its target (C02 chosen_target_is_entered) *)
+Theorem ordinary_choice_leaves : forall orc ctxkeys st ch o,
+  ch_sticky (rc_choice ch) = true -> String.eqb (ch_target (rc_choice ch)) "@join" = false ->
+  forall s, choose_nav orc ctxkeys st ch o s =
+            bind (goto orc ctxkeys st (jump_spec (ch_target (rc_choice ch)) (ch_args (rc_choice ch))))
+                 (after_hooks orc ctxkeys st) s.
+Proof. intros orc ctxkeys st ch o Hs Hj s. unfold choose_nav. rewrite Hs, Hj. reflexivity. Qed.
+Print Assumptions ordinary_choice_leaves.
+
+(* progress restarts whenever the passage is entered again - by a choice, through a jump chain or by direct
+   navigation: after any successful goto the passage that is shown is at its first section *)
+Theorem reentry_restarts : forall orc ctxkeys st f spec vis s s' o,
+  goto_rec orc ctxkeys st f spec vis s = (s', Ok o) -> lookup (o_pid o) (joinidx (nc s')) = Some 0.
+Proof. exact goto_rec_join_reset. Qed.
+Print Assumptions reentry_restarts.
+
+(* non-vacuity: a passage with one marker; taking the join choice advances to section 1 and shows block + tail *)
+Definition join_story : story :=
+  mkStory "J" [("J"%string,
+     mkPassage "J" [] [TText "intro"; TJoinMarker 0; TText "tail"]
+       [Choice [TText "a"] "@join" "" None true 0 [] [TText "block "];
+        Choice [TText "leave"] "J" "" None true 1 [] []] [] [] [])] [] [].
+Definition ok_orc : pyorc := mkOrc (fun _ _ => Ok VNone) (fun c _ => Ok c)
+                                   (fun _ _ => Ok ""%string) (fun _ _ => Ok ([], [])).
+Example join_example :
+  let e0 := fst (init ok_orc [] join_story []) in
+  let e1 := fst (choose ok_orc [] join_story e0 0) in
+  (o_content (current_out e0), map rc_text (o_choices (current_out e0)),
+   o_content (current_out e1), map rc_text (o_choices (current_out e1)), joinidx (ec e1))
+  = ("intro"%string, ["a"%string], ("block " ++ String "010"%char "tail")%string, ["leave"%string],
+     [("J"%string, 1)]).
+Proof. vm_compute. reflexivity. Qed.
